@@ -648,11 +648,33 @@ func commitUniqueness(tier string, shard, n int) (cycles int, decisions int, vio
 					continue
 				}
 				cycles++
+				if obs.tr.SawEvictedNomination() {
+					continue // queue usage of this cycle is governed by the open C14 finding (evicted nominations)
+				}
 				for _, p := range obs.problems {
 					if !strings.HasPrefix(p.Key, "queue-") {
 						continue
 					}
-					viol = append(viol, engine.Violation{Property: "C13", Key: "C13/failed-bind-at-commit-changes-queue-usage " + p.Key,
+					// which kind of job the failing pod belongs to, and in which direction the queues are off
+					shape := "gang"
+					for _, pg := range sc.World.PodGroups {
+						if pg.Name == d.Group {
+							n := 0
+							for _, pod := range sc.World.Pods {
+								if pod.Annotations["pod-group-name"] == pg.Name {
+									n++
+								}
+							}
+							if int(pg.Spec.MinMember) < n {
+								shape = "elastic"
+							}
+						}
+					}
+					dir := "queues-charged-too-much"
+					if strings.Contains(p.Msg, "= -") || queueUnder(p.Msg) {
+						dir = "queues-charged-too-little"
+					}
+					viol = append(viol, engine.Violation{Property: "C13", Key: "C13/failed-bind-at-commit-changes-queue-usage " + p.Key + " job=" + shape + " " + dir,
 						Message: fmt.Sprintf("scenario %s cfg %s with the bind of %s failing: %s", sc.Name, cfg.Label(), d.Pod, p.Msg),
 						Replay:  map[string]any{"scenario": sc.Name, "world": json.RawMessage(sc.World.JSON()), "fault": "bind:" + d.Pod}})
 					break
@@ -900,4 +922,18 @@ func replayC13(path string) int {
 
 func init() {
 	registry.Register("C13", runC13, replayC13)
+}
+
+// queueUnder: does a queue-allocated-differs message report LESS than the recomputation (in any resource)?
+func queueUnder(msg string) bool {
+	var q string
+	var ag, ac, am, rg, rc, rm float64
+	i := strings.Index(msg, "queue ")
+	if i < 0 {
+		return false
+	}
+	if _, err := fmt.Sscanf(msg[i:], "queue %s allocated gpu/cpu/mem = %f/%f/%f, recomputed from active tasks = %f/%f/%f", &q, &ag, &ac, &am, &rg, &rc, &rm); err != nil {
+		return false
+	}
+	return ag < rg-1e-9 || ac < rc-1e-9 || am < rm-1e-9
 }
